@@ -4,6 +4,8 @@ workloads run, for each property.  (Orchestration data only.)"""
 MC = "model_checking"
 
 PROPS = {
+    "C02": {"level": MC, "steps": [{"kind": "wl", "name": "c02"}]},
+    "C10": {"level": MC, "steps": [{"kind": "wl", "name": "c10"}]},
     "C01": {"level": MC, "steps": [
         {"kind": "gen", "name": "Gen_C01"},
         {"kind": "wl", "name": "c01"},
